@@ -1,0 +1,24 @@
+//go:build verif
+
+package jsonapi
+
+import (
+	"net/http"
+
+	"github.com/ccbrown/api-fu/jsonapi/types"
+)
+
+// VerifInjectKey is the request-context key under which a verification harness may place
+// VerifInjectedErrors. Only compiled with the `verif` build tag.
+type VerifInjectKey struct{}
+
+// VerifInjectedErrors replaces the router's answer by a document carrying exactly these errors, so
+// that the response-writing half of ServeHTTP (status derivation, headers, marshalling) can be
+// exercised on error lists the router itself never builds.
+type VerifInjectedErrors []types.Error
+
+func verifAdjustResponse(r *http.Request, resp *response) {
+	if errs, ok := r.Context().Value(VerifInjectKey{}).(VerifInjectedErrors); ok {
+		*resp = response{Document: types.ResponseDocument{Errors: []types.Error(errs)}}
+	}
+}
